@@ -100,6 +100,8 @@ static uint64_t g_clock_ns, g_clock_last_read_step, g_clock_last_value, g_clock_
 static mvsim_probe_cb_t g_probe_cb;
 static int g_rr_left;
 static uint64_t g_func_steps, g_mem_ctr;
+int mvsim_lib_sched_stacks(unsigned long *lo, unsigned long *hi, int max);
+static unsigned long g_ss_lo[NSLOTS], g_ss_hi[NSLOTS]; static int g_ss_n, g_envs_valid, g_exit_seen;   /* scheduler stacks, snapshot taken at the barrier hooks */
 static uintptr_t c_lo, c_hi;   /* flavour mem: cached own-stack interval; dropped whenever a stack is handed out or released */
 static int g_bug_permille;
 static uint64_t g_pct_points[8];
@@ -374,7 +376,7 @@ void mvsim_begin_run(const mvsim_runcfg *c) {
   memset(&g_st, 0, sizeof g_st);
   memset(g_pairmap, 0, sizeof g_pairmap);
   for (int i = 0; i < NSLOTS; i++) { g_w[i].state = W_UNUSED; g_w[i].id = i; }
-  g_func_steps = 0; g_mem_ctr = 0; c_lo = c_hi = 0; g_progress = 1; g_sweeps = 0; g_progress_at_sweep = 0; g_drain = 0; g_nspawned = 0; g_ndone = 0;
+  g_func_steps = 0; g_mem_ctr = 0; c_lo = c_hi = 0; g_ss_n = 0; g_envs_valid = 0; g_exit_seen = 0; g_progress = 1; g_sweeps = 0; g_progress_at_sweep = 0; g_drain = 0; g_nspawned = 0; g_ndone = 0;
   g_rr_left = 0;
   mvsim_rng_seed(&g_rng_sched, c->run_seed, 1);
   mvsim_rng_seed(&g_rng_rand, c->run_seed, 2);
@@ -599,6 +601,9 @@ worker *mvsim_dispatch(struct mvreq *r) {
     case RQ_EXIT:
       g_progress++;
       w->state = W_DONE; if (w->id < NATIVE_BASE) g_ndone++;
+      /* once every worker has stopped nothing runs on a scheduler stack any more, and myth_fini goes on to free
+         the worker descriptors: take the last snapshot and stop looking at them */
+      if (g_envs_valid && g_ndone >= g_nspawned) { g_ss_n = mvsim_lib_sched_stacks(g_ss_lo, g_ss_hi, NSLOTS); g_envs_valid = 0; }
       release_waiters_of(w->id);
       break;
     case RQ_QUIESCE:
@@ -632,6 +637,8 @@ worker *mvsim_dispatch(struct mvreq *r) {
 
 void myth_verif_point(int site) {
   if (!g_active) return;
+  if (site == MYTH_VS_EXIT_FLAG_WR) g_exit_seen = 1;
+  else if (site == MYTH_VS_INIT_CAS && g_exit_seen) { g_exit_seen = 0; g_ss_n = 0; c_lo = c_hi = 0; }   /* a new initialisation in the same run */
   ALIGN_CHECK(site);
   struct mvreq r = { RQ_POINT, site, 0, 0 };
   mvsim_enter(&r);
@@ -733,6 +740,7 @@ int myth_verif_spawn_worker(void *(*fn)(void *), void *arg) {
   long rank = (long)(intptr_t)arg;
   if (rank <= 0 || rank >= NATIVE_BASE) mvsim_violation("INFRA", "worker rank %ld out of simulator range", rank);
   spawn_slot((int)rank, fn, arg);
+  g_envs_valid = 1;        /* myth_init allocated the worker descriptors before it starts workers */
   g_nspawned++;
   if ((int)rank + 1 > g_st.max_workers) g_st.max_workers = (int)rank + 1;
   return 1;
@@ -757,6 +765,8 @@ void mvsim_join_native(int id) {
 
 int myth_verif_barrier_wait(void *b, int n) {
   if (!g_active) return 0;
+  g_ss_n = mvsim_lib_sched_stacks(g_ss_lo, g_ss_hi, NSLOTS); c_lo = c_hi = 0;   /* the worker descriptors are valid here */
+  g_envs_valid = !g_exit_seen;   /* start-up barriers: valid from now on; shut-down barrier: myth_fini frees them next */
   struct mvreq r = { RQ_BARRIER, MYTH_VS_NONE, b, n };
   mvsim_enter(&r);
   return 1;
@@ -906,12 +916,15 @@ static void live_del(uintptr_t lo) {
   for (int i = 0; i < g_nlive; i++) if (g_live[i].lo == lo) { g_live[i] = g_live[--g_nlive]; return; }
 }
 
-int mvsim_lib_sched_stack_range(unsigned long sp, unsigned long *lo, unsigned long *hi);
 static int own_stack_range(uintptr_t sp, uintptr_t *lo, uintptr_t *hi) {
   for (int i = 0; i < g_nlive; i++) if (sp >= g_live[i].lo && sp < g_live[i].hi) { *lo = g_live[i].lo; *hi = g_live[i].hi; return 1; }
   for (int i = 0; i < NSLOTS; i++) if (g_w[i].stack && sp >= (uintptr_t)g_w[i].stack && sp < (uintptr_t)g_w[i].stack + g_w[i].stack_size) {
     *lo = (uintptr_t)g_w[i].stack; *hi = *lo + g_w[i].stack_size; return 1; }
-  { unsigned long l, h; if (mvsim_lib_sched_stack_range(sp, &l, &h)) { *lo = l; *hi = h; return 1; } }
+  for (int i = 0; i < g_ss_n; i++) if (sp >= g_ss_lo[i] && sp < g_ss_hi[i]) { *lo = g_ss_lo[i]; *hi = g_ss_hi[i]; return 1; }
+  if (g_envs_valid) {      /* a scheduler stack allocated since the last snapshot */
+    g_ss_n = mvsim_lib_sched_stacks(g_ss_lo, g_ss_hi, NSLOTS);
+    for (int i = 0; i < g_ss_n; i++) if (sp >= g_ss_lo[i] && sp < g_ss_hi[i]) { *lo = g_ss_lo[i]; *hi = g_ss_hi[i]; return 1; }
+  }
   return 0;    /* the process's initial stack (worker 0 / the simulator itself) */
 }
 
